@@ -17,9 +17,13 @@ codec.  The concrete mutators of `_BobState` (`St`, `Mut`, `stepSt`) instantiate
 correspondence run.  The four file names, the version window, the upgrade thresholds and the
 trailer layout come from `Generated/ConstsC10.lean`.
 
-Not modelled: errors of the file system calls themselves (EIO, ENOSPC, read-only directory; they
-make `__save` raise and `__commit` warn), the non-EEXIST failure of the lock creation, the sqlite
-build-id cache, directory fsync (rename durability is assumed).
+I/O errors (section "I/O errors of the file-system calls"): every FS call of `__save`, `__commit`,
+`finalize`, `__init__` may fail; the exception handling is transliterated as it is (`__save`: OSError ->
+ParseError, `.dirty` is left behind; `__commit`: `os.path.exists` swallows a stat error, every other
+OSError -> warning and *unlink of the uncommitted file*, an unlink error -> warning; lock creation:
+non-EEXIST error -> warning and the instance runs unlocked; load: OSError -> `finalize(); raise`).
+
+Not modelled: the sqlite build-id cache, directory fsync (rename durability is assumed).
 -/
 namespace StateFS
 
@@ -49,6 +53,11 @@ def FS.empty : FS := fun _ => none
 
 def FS.set (fs : FS) (n : Name) (v : Option File) : FS := fun m => if m = n then v else fs m
 
+/-- which call failed (for the trace comparison only; a failed call has no effect) -/
+inductive FailKind
+  | stat | open | write | read | fsync | rename | unlink | lockOpen
+  deriving DecidableEq, Repr
+
 inductive Op
   | createExcl (n : Name)          -- open(O_CREAT|O_EXCL|O_WRONLY) + close; fails (no effect) when the name exists
   | openTrunc (n : Name)           -- open("wb"): create or truncate
@@ -58,6 +67,7 @@ inductive Op
   | unlink (n : Name)
   | stat (n : Name)                -- os.path.exists
   | read (n : Name)                -- content read
+  | failed (k : FailKind) (n : Name) -- a call on `n` that returned an error (no effect on the directory)
   deriving DecidableEq, Repr
 
 def applyOp (fs : FS) : Op → FS
@@ -77,6 +87,7 @@ def applyOp (fs : FS) : Op → FS
   | .unlink n => fs.set n none
   | .stat _ => fs
   | .read _ => fs
+  | .failed _ _ => fs
 
 def applyOps (fs : FS) (ops : List Op) : FS := ops.foldl applyOp fs
 
@@ -318,6 +329,184 @@ def runSessions (c : Cfg σ μ) (fs : FS) (G : Ghost σ) : List (Session μ) →
   | [] => (fs, G)
   | s :: rest => let r := runSession c fs s; runSessions c r.2 (G.run r.1) rest
 
+
+/-! ## I/O errors of the file-system calls
+
+Every file-system call of `__save` / `__commit` / `finalize` / `__init__` may fail.  The fault choice is an
+explicit parameter of each step, so a history with faults is a list of invocations, each with a fault
+choice for the start, for every API call and for `finalize`.  A failed call has no effect on the
+directory (a failed `write` leaves a prefix of the content in `.dirty`). -/
+
+/-- where `__save` fails: `open(dirty,"wb")`, a `write`/`close` after `k` bytes, `os.replace(dirty,new)` -/
+inductive SaveFault
+  | open | write (k : Nat) | rename
+  deriving DecidableEq, Repr
+
+/-- `__save` with an optional fault: events, and whether `ParseError("Error saving workspace state")` is raised.
+The `saved` marker is emitted only when the rename is going to be performed. -/
+def saveF (c : Cfg σ μ) (s : σ) : Option SaveFault → List (Ev σ) × Bool
+  | none => (saveEvs c s, false)
+  | some .open => ([.op (.failed .open .dirty)], true)
+  | some (.write k) =>
+    ([.op (.openTrunc .dirty), .op (.append .dirty ((encS c s).take k)), .op (.failed .write .dirty)], true)
+  | some .rename =>
+    ([.op (.openTrunc .dirty), .op (.append .dirty (encS c s)), .op (.failed .rename .dirty)], true)
+
+/-- where `__commit` fails: `os.path.exists` (swallowed: treated as "no uncommitted file"), `open("r+b")`,
+`f.read()`, `os.fsync`, `os.replace` -/
+inductive CFault
+  | stat | open | read | fsync | rename
+  deriving DecidableEq, Repr
+
+structure CF where
+  pos : Option CFault
+  unlinkFails : Bool        -- the `os.unlink(uncommitted)` of the discard path fails (warning only)
+  deriving DecidableEq, Repr
+
+def CF.none : CF := ⟨Option.none, false⟩
+
+/-- the tail of `__commit`: `os.unlink(self.__uncommittedPath)`, an error is a warning -/
+def discardOps (cf : CF) : List Op := [if cf.unlinkFails then .failed .unlink .new else .unlink .new]
+
+/-- `__commit(verify)` with faults: every `OSError` inside the `try` is caught, warned about, and control
+falls through to the unlink of the uncommitted file. -/
+def commitF (fs : FS) (vfy : Bool) (cf : CF) : List Op :=
+  if cf.pos = some CFault.stat then [Op.failed FailKind.stat Name.new] else
+  .stat .new :: match fs .new with
+  | Option.none => []
+  | some f =>
+    if cf.pos = some CFault.open then .failed .open .new :: discardOps cf
+    else if vfy && cf.pos = some CFault.read then .failed .read .new :: discardOps cf
+    else (if vfy then [.read .new] else []) ++
+      (if cf.pos = some CFault.fsync then .failed .fsync .new :: discardOps cf
+       else .fsync .new ::
+        (if !vfy || verify f.data then
+          (if cf.pos = some CFault.rename then .failed .rename .new :: discardOps cf else [.rename .new .pickle])
+         else discardOps cf))
+
+structure FinFault where
+  commit : CF
+  unlock : Bool             -- `os.unlink(lock)` fails (warning only; the lock file stays)
+  deriving DecidableEq, Repr
+
+def FinFault.none : FinFault := ⟨CF.none, false⟩
+
+structure InitFault where
+  lock : Bool               -- `os.open(lock, O_CREAT|O_EXCL)` fails with an errno other than EEXIST: warning, run unlocked
+  commit : CF
+  load : Bool               -- `open(path,'rb')` / `pickle.load` raises OSError -> ParseError, `finalize()`, raise
+  fin : FinFault            -- faults of the `finalize()` of the error path
+  deriving DecidableEq, Repr
+
+def InitFault.none : InitFault := ⟨false, CF.none, false, FinFault.none⟩
+
+/-- the file-system part of `finalize` (`__commit(False)`, unlink of the lock if this instance holds it) -/
+def finOpsF (fs : FS) (locked : Bool) (ff : FinFault) : List Op :=
+  commitF fs false ff.commit ++
+    (if locked then [if ff.unlock then .failed .unlink .lock else .unlink .lock] else [])
+
+inductive InitErrF
+  | locked | load (e : LoadErr) | loadIO
+  deriving DecidableEq, Repr
+
+structure InitResF (σ : Type) where
+  evs : List (Ev σ)
+  res : Except InitErrF (Option σ)
+  locked : Bool             -- does the instance hold the lock (`self.__lock`)
+
+/-- `_BobState.__init__` with faults -/
+def initF (c : Cfg σ μ) (fs : FS) (ift : InitFault) : InitResF σ :=
+  if !ift.lock && (fs .lock).isSome then ⟨[.op (.createExcl .lock)], .error .locked, false⟩ else
+  let lockOp : Op := if ift.lock then .failed .lockOpen .lock else .createExcl .lock
+  let locked := !ift.lock
+  let fs1 := applyOp fs lockOp
+  let cops := commitF fs1 true ift.commit
+  let fs2 := applyOps fs1 cops
+  if ift.load && (fs2 .pickle).isSome then
+    ⟨.op lockOp :: (cops ++ ([Op.stat .pickle, Op.failed .open .pickle] : List Op) ++ finOpsF fs2 locked ift.fin).map Ev.op,
+      .error .loadIO, locked⟩
+  else
+    let pre : List (Ev σ) := .op lockOp :: (cops ++ loadOps fs2).map .op
+    match loadDisk c fs2 with
+    | .ok x => ⟨pre ++ [.loaded x], .ok x, locked⟩
+    | .error e => ⟨pre ++ (finOpsF fs2 locked ift.fin).map .op, .error (.load e), locked⟩
+
+/-- one API call with a fault choice for the `__save` it may perform.
+`raised`: 0 = returns, 1 = AssertionError of `setSynchronous`, 2 = ParseError of `__save`.
+`__save` clears `__dirty` before the `try`, the in-memory state keeps the mutation. -/
+def callStepF (c : Cfg σ μ) (mem : Mem σ) (sf : Option SaveFault) : Call μ → Mem σ × List (Ev σ) × Nat
+  | .mut m =>
+    let r := c.step mem.cur m
+    if r.2 then
+      if mem.async = 0 then
+        let sv := saveF c r.1 sf
+        (⟨r.1, mem.async, false⟩, sv.1, if sv.2 then 2 else 0)
+      else (⟨r.1, mem.async, true⟩, [], 0)
+    else (⟨r.1, mem.async, mem.dirty⟩, [], 0)
+  | .setAsync => (⟨mem.cur, mem.async + 1, mem.dirty⟩, [], 0)
+  | .setSync =>
+    let a := mem.async - 1
+    if a < 0 then (⟨mem.cur, a, mem.dirty⟩, [], 1)
+    else if a = 0 ∧ mem.dirty = true then
+      let sv := saveF c mem.cur sf
+      (⟨mem.cur, a, false⟩, sv.1, if sv.2 then 2 else 0)
+    else (⟨mem.cur, a, mem.dirty⟩, [], 0)
+
+/-- the client goes on after an exception (the most general client) -/
+def runCallsF (c : Cfg σ μ) (mem : Mem σ) : List (Call μ × Option SaveFault) → Mem σ × List (Ev σ)
+  | [] => (mem, [])
+  | cl :: rest =>
+    let r := callStepF c mem cl.2 cl.1
+    let r' := runCallsF c r.1 rest
+    (r'.1, r.2.1 ++ r'.2)
+
+/-- `finalize` with faults.  The ghost marker `endInv` ("the state this instance last saved or loaded is now the
+committed one") is emitted only when nothing was left to commit or the commit met no error. -/
+def finalizeF (fs : FS) (mem : Mem σ) (locked : Bool) (ff : FinFault) : List (Ev σ) :=
+  if finalizeOk mem then
+    (finOpsF fs locked ff).map .op ++ (if (fs .new).isNone || ff.commit.pos.isNone then [.endInv] else [])
+  else []
+
+structure InvF (μ : Type) where
+  init : InitFault
+  calls : List (Call μ × Option SaveFault)
+  fin : FinFault
+
+def runInvF (c : Cfg σ μ) (fs : FS) (iv : InvF μ) : List (Ev σ) :=
+  let i := initF c fs iv.init
+  match i.res with
+  | .error _ => i.evs
+  | .ok x =>
+    let r := runCallsF c (memOf c x) iv.calls
+    let fs' := applyEvs fs (i.evs ++ r.2)
+    i.evs ++ r.2 ++ finalizeF fs' r.1 i.locked iv.fin
+
+inductive SessionF (μ : Type)
+  | complete (iv : InvF μ)
+  | crashed (iv : InvF μ) (cut : Nat) (g : Garble)
+
+def runSessionF (c : Cfg σ μ) (fs : FS) : SessionF μ → List (Ev σ) × FS
+  | .complete iv => let e := runInvF c fs iv; (e, applyEvs fs e)
+  | .crashed iv cut g => let e := (runInvF c fs iv).take cut; (e, recover (applyEvs fs e) g)
+
+def runSessionsF (c : Cfg σ μ) (fs : FS) (G : Ghost σ) : List (SessionF μ) → FS × Ghost σ
+  | [] => (fs, G)
+  | s :: rest => let r := runSessionF c fs s; runSessionsF c r.2 (G.run r.1) rest
+
+/-- the start-up commit really gets rid of (or commits) the uncommitted file: `os.path.exists` does not fail on
+it and the unlink of the discard path does not fail.  (Without this the real code keeps an unverified
+uncommitted file that the `finalize` of the same invocation commits *without* verification: see
+`Props/C10.faulty_goal_fails`.) -/
+def InitFault.StartOK (f : InitFault) : Prop := f.commit.pos ≠ some CFault.stat ∧ f.commit.unlinkFails = false
+
+def SessionF.iv : SessionF μ → InvF μ
+  | .complete iv => iv
+  | .crashed iv _ _ => iv
+
+def SessionF.Det : SessionF μ → Prop
+  | .complete _ => True
+  | .crashed _ _ g => Detectable g
+
 /-! ## two instances on one directory -/
 
 inductive Who
@@ -365,6 +554,51 @@ def step2 (c : Cfg σ μ) (w : World2 σ) : Act μ → World2 σ × List (Ev σ)
 def run2 (c : Cfg σ μ) (w : World2 σ) : List (Act μ) → World2 σ
   | [] => w
   | a :: rest => run2 c (step2 c w a).1 rest
+
+/-! two instances on one directory, with I/O errors -/
+
+inductive ActF (μ : Type)
+  | init (w : Who) (f : InitFault)
+  | call (w : Who) (c : Call μ) (sf : Option SaveFault)
+  | fin (w : Who) (ff : FinFault)
+
+/-- a live instance: its memory and whether it holds the lock (`self.__lock`) -/
+structure World2F (σ : Type) where
+  fs : FS
+  ma : Option (Mem σ × Bool)
+  mb : Option (Mem σ × Bool)
+
+def World2F.get (w : World2F σ) : Who → Option (Mem σ × Bool)
+  | .a => w.ma
+  | .b => w.mb
+
+def World2F.put (w : World2F σ) (i : Who) (m : Option (Mem σ × Bool)) (fs : FS) : World2F σ :=
+  match i with
+  | .a => ⟨fs, m, w.mb⟩
+  | .b => ⟨fs, w.ma, m⟩
+
+def step2F (c : Cfg σ μ) (w : World2F σ) : ActF μ → World2F σ
+  | .init i f => match w.get i with
+    | some _ => w
+    | none =>
+      let r := initF c w.fs f
+      match r.res with
+      | .ok x => w.put i (some (memOf c x, r.locked)) (applyEvs w.fs r.evs)
+      | .error _ => w.put i none (applyEvs w.fs r.evs)
+  | .call i cl sf => match w.get i with
+    | none => w
+    | some m => let r := callStepF c m.1 sf cl; w.put i (some (r.1, m.2)) (applyEvs w.fs r.2.1)
+  | .fin i ff => match w.get i with
+    | none => w
+    | some m => if finalizeOk m.1 then w.put i none (applyEvs w.fs (finalizeF w.fs m.1 m.2 ff)) else w
+
+def run2F (c : Cfg σ μ) (w : World2F σ) : List (ActF μ) → World2F σ
+  | [] => w
+  | a :: rest => run2F c (step2F c w a) rest
+
+def holdsLock : Option (Mem σ × Bool) → Bool
+  | some (_, true) => true
+  | _ => false
 
 /-- net effect of a list of mutator calls inside an asynchronous section -/
 def foldMuts (c : Cfg σ μ) (s : σ) (need : Bool) : List (Call μ) → σ × Bool
